@@ -87,7 +87,8 @@ def gen_model(c):
         return "geom", dict(surface=s)
     if kind == "aero":
         modes = ["plain", "sym", "ground", "compressible", "rotational", "sym_right", "projected"]
-        mode = modes[(c.get("idx", 0) // 3) % len(modes)]  # every option class is reached deterministically
+        idx_ = c.get("idx", 0)
+        mode = modes[(2 * (idx_ // 6) + max(idx_ % 6 - 1, 0)) % len(modes)]  # ordinal of this aero model: every option class is reached deterministically
         symc = mode in ("sym", "ground", "sym_right") or (mode in ("compressible", "projected") and rng.random() < 0.5)
         ns = int(rng.choice([1, 1, 2, 3]))
         if mode in ("rotational", "plain"):
